@@ -91,6 +91,13 @@ func (r *Remote) cleanPending(num int) {
 }
 
 func (r *Remote) getPendingChan(key string) chan Message {
+	return r.pendingChan(key, false)
+}
+
+// pendingChan returns the channel that the reply with the given ID is routed
+// to. With wait set, the entry is marked as having a caller blocked on it until
+// donePending is called, so that it is not discarded as stale in the meantime.
+func (r *Remote) pendingChan(key string, wait bool) chan Message {
 	r.mu.Lock()
 	defer r.mu.Unlock()
 	if r.pending == nil {
@@ -108,7 +115,21 @@ func (r *Remote) getPendingChan(key string) chan Message {
 		}
 		r.pending[key] = pending
 	}
+	if wait && !pending.waiting {
+		pending.waiting = true
+		r.pending[key] = pending
+	}
 	return pending.msgChan
+}
+
+// donePending marks the entry for key as no longer waited on.
+func (r *Remote) donePending(key string) {
+	r.mu.Lock()
+	defer r.mu.Unlock()
+	if pending, ok := r.pending[key]; ok && pending.waiting {
+		pending.waiting = false
+		r.pending[key] = pending
+	}
 }
 
 func (r *Remote) handleRequest(msg *Message) error {
@@ -139,12 +160,13 @@ func (r *Remote) Serve() error {
 func (r *Remote) receive(ctx context.Context, ID json.RawMessage) (*Message, error) {
 	key := string(ID)
 	select {
-	case msg := <-r.getPendingChan(key):
+	case msg := <-r.pendingChan(key, true):
 		r.mu.Lock()
 		delete(r.pending, key)
 		r.mu.Unlock()
 		return &msg, nil
 	case <-ctx.Done():
+		r.donePending(key)
 		return nil, ctx.Err()
 	}
 }
@@ -161,7 +183,13 @@ func (r *Remote) Call(ctx context.Context, result interface{}, method string, pa
 	if err != nil {
 		return err
 	}
+	// Register as waiting before the request goes out, so that a reply that
+	// overtakes us is not mistaken for a stale entry either.
+	r.pendingChan(string(req.ID), true)
 	if err = r.Codec.WriteMessage(req); err != nil {
+		r.mu.Lock()
+		delete(r.pending, string(req.ID))
+		r.mu.Unlock()
 		return err
 	}
 	resp, err := r.receive(ctx, req.ID)
